@@ -231,7 +231,11 @@ theorem ar_san (p p' : CertParams) (seen : List (List Nat)) (o : List Nat) (c : 
   · cases h
   · cases hs : importSans names with
     | error e => simp [hs] at h
-    | ok s => simp only [hs] at h; exact ⟨s, rfl, h⟩
+    | ok s =>
+      simp only [hs] at h
+      split at h
+      · cases h
+      · exact ⟨s, rfl, h⟩
 
 theorem ar_eku (p p' : CertParams) (seen : List (List Nat)) (o : List Nat) (c : Bool)
     (oids : List (List Nat)) (raw : Bytes) (rest : List (Ext × Bytes))
@@ -243,6 +247,24 @@ theorem ar_eku (p p' : CertParams) (seen : List (List Nat)) (o : List Nat) (c : 
   · split at h
     · exact h
     · cases h
+
+/-- the guard on requested alternative names: at least one, written back exactly as requested -/
+theorem ar_san_guard (p p' : CertParams) (seen : List (List Nat)) (o : List Nat) (c : Bool)
+    (names : List GName) (raw : Bytes) (rest : List (Ext × Bytes))
+    (h : applyRequested p seen ((⟨o, c, .san names⟩, raw) :: rest) = .ok p') :
+    ∃ s, importSans names = .ok s ∧ s ≠ [] ∧ encode (.seq (s.map sanNode)) = raw := by
+  simp only [applyRequested] at h
+  split at h
+  · cases h
+  · cases hs : importSans names with
+    | error e => simp [hs] at h
+    | ok s =>
+      simp only [hs] at h
+      split at h
+      · cases h
+      · rename_i hc
+        simp only [Bool.or_eq_true, List.isEmpty_iff, bne_iff_ne, ne_eq, not_or, Decidable.not_not] at hc
+        exact ⟨s, rfl, hc.1, hc.2⟩
 
 /-- what the loop leaves in the parameters for the extension request rcgen writes for `i.p`
     (no custom extensions): key usages as the set requested, the alternative names the glue reads
